@@ -1,7 +1,10 @@
 import S2T.Drv.Util
 import S2T.Model.Observe
+import S2T.Model.InputStream
+import S2T.Model.History
+import S2T.Spec.C06Cells
 namespace S2T.Drv.C06
-open Lean S2T.Drv S2T.Observe
+open Lean S2T.Drv S2T.Observe S2T.InputStream
 
 def parseOp (j : Json) : Except String Op := do
   let a ← j.getArr?
@@ -29,9 +32,75 @@ def streamOp (j : Json) : Except String Json := do
   let (as, s) := run ⟨content, 0⟩ ops
   return Json.mkObj [("answers", Json.arr (as.map ansJson).toArray), ("pos", Json.num (JsonNumber.fromNat s.pos))]
 
+def natsOf (j : Json) : Except String (List Nat) := do
+  let a ← j.getArr?
+  a.toList.mapM (fun x => x.getNat?)
+
+def parseInOp (j : Json) : Except String InOp := do
+  let a ← j.getArr?
+  let name ← (a[0]?.getD Json.null).getStr?
+  let arg := a[1]?.getD Json.null
+  match name with
+  | "read" => do let k ← arg.getNat?; pure (.read k)
+  | "readinto" => do let k ← arg.getNat?; pure (.readinto k)
+  | "readAll" => pure .readAll
+  | "readline" => pure .readline
+  | "seek" => do let k ← arg.getNat?; pure (.seek k)
+  | "tell" => pure .tell
+  | "getvalue" => pure .getvalue
+  | "getbuffer" => pure .getbuffer
+  | "seekable" => pure .seekable
+  | "readable" => pure .readable
+  | "write" => do let b ← natsOf arg; pure (.write b)
+  | "writelines" => do let b ← natsOf arg; pure (.writelines b)
+  | "truncate" => if arg.isNull then pure (.truncate none) else do let k ← arg.getNat?; pure (.truncate (some k))
+  | _ => .error s!"bad input op {name}"
+
+/-- op `c06.instream` {"content":[..], "ops":[["seek",3],["write",[1,2]],["truncate",null],…]}
+    ↦ {"states":[{"content":[…],"pos":n} after every op], "readonly":[bool per op]} -/
+def inStreamOp (j : Json) : Except String Json := do
+  let content ← natArr j "content"
+  let opsJ ← getArr j "ops"
+  let ops ← opsJ.toList.mapM parseInOp
+  let rec go (s : Stream) : List InOp → List Json
+    | [] => []
+    | op :: rest =>
+      let s' := inStep s op
+      Json.mkObj [("content", jNats s'.content), ("pos", Json.num (JsonNumber.fromNat s'.pos))] :: go s' rest
+  return Json.mkObj [("states", Json.arr (go ⟨content, 0⟩ ops).toArray),
+                     ("readonly", Json.arr (ops.map (fun o => Json.bool (readOnly o))).toArray)]
+
+/-- op `c06.overlay` {"table":[[k,v],…], "docs":[{"decls":[[k,v],…],"uses":[k,…]},…], "alias":bool}
+    ↦ {"outputs":[[v,…] per doc]} — keys/values are numbers, the default of key k is k+1000000 -/
+def overlayOp (j : Json) : Except String Json := do
+  let pairs (x : Json) : Except String (List (Nat × Nat)) := do
+    let a ← x.getArr?
+    a.toList.mapM (fun p => do
+      let q ← natsOf p
+      match q with
+      | [k, v] => pure (k, v)
+      | _ => .error "pair expected")
+  let tbl ← pairs (← j.getObjVal? "table")
+  let docsJ ← getArr j "docs"
+  let docs ← docsJ.toList.mapM (fun d => do
+    let decls ← pairs (← d.getObjVal? "decls")
+    let uses ← natArr d "uses"
+    pure (⟨decls, uses⟩ : S2T.History.Doc Nat Nat))
+  let alias ← getBool j "alias"
+  let run := if alias then S2T.History.overlayAlias (· + 1000000) else S2T.History.overlayCopy (· + 1000000)
+  let outs := S2T.History.outputs run tbl docs
+  return Json.mkObj [("outputs", Json.arr (outs.map jNats).toArray)]
+
+/-- op `c06.cells` ↦ {"volatile":[cell names the frame check lets change]} -/
+def cellsOp : Except String Json :=
+  return Json.mkObj [("volatile", Json.arr (S2T.Spec.C06Cells.volatileCells.map Json.str).toArray)]
+
 def handle (op : String) (j : Json) : Option (Except String Json) :=
   match op with
   | "c06.stream" => some (streamOp j)
+  | "c06.instream" => some (inStreamOp j)
+  | "c06.overlay" => some (overlayOp j)
+  | "c06.cells" => some cellsOp
   | _ => none
 
 end S2T.Drv.C06
